@@ -20,7 +20,7 @@ PLAN = {
     # prop: (case kinds with weights, quick cases, thorough cases, quick wall cap s, thorough wall cap s)
     "C20": ([("directed", 1), ("world", 6)], 1800, 40000, 75, 1100),
     "C16": ([("directed", 1), ("world", 6)], 1800, 40000, 75, 1100),
-    "C15": ([("hist15", 1)], 40000, 600000, 70, 900),
+    "C15": ([("hist15", 40), ("mutworld", 1)], 40000, 600000, 70, 900),
     "C14": ([("twin14", 1)], 6000, 120000, 70, 900),
     "C19": ([("deriv19", 1)], 30000, 500000, 70, 900),
 }
@@ -81,7 +81,14 @@ def plan_items(prop, tier, seed, ncases):
                 items.append(("directed", (base % 20000) * 100000 + 80000 + q, tier, prop))
     for i in range(n):
         kind = bag[i % len(bag)]
-        if kind == "directed":
+        if kind == "mutworld":
+            # in-place updates on private objects as one thread among others (directed 'mutators' template)
+            from . import directed
+
+            off = next(q for q, t in enumerate(directed.templates()) if t[0] == "mutators")
+            items.append(("directed", (base % 20000) * 100000 + off + (nd % 48), tier, prop))
+            nd += 1
+        elif kind == "directed":
             # directed templates are enumerated (stride 101 spreads a short run over the whole list)
             items.append((kind, (base % 20000) * 100000 + (nd * 101) % 100000, tier, prop))
             nd += 1
